@@ -27,6 +27,7 @@ const (
 	OutSilentDrop // no reply; the connection is reset later (a held peer action)
 	OutDropNow    // the connection is reset when the request arrives
 	OutHostile    // a malformed / unexpected reply (C17); Hostile selects the behaviour
+	OutHang       // no reply, and the connection answers nothing from now on (not even heartbeats): the proxy has to give it up itself (idle timeout)
 )
 
 // Outcome is what a fake backend does with one attempt of a tokenised request.
@@ -79,6 +80,7 @@ type Node struct {
 	Up         bool // accepts connections
 	Blackhole  bool // dials hang, traffic is swallowed
 	Stalled    bool // receives requests but never answers (not even heartbeats)
+	FailControlQueries bool // answers system.local / system.peers with an error (a contact point that cannot serve)
 	InCluster  bool // listed in system tables of the other nodes
 	MaxVersion primitive.ProtocolVersion
 	DSE        bool
@@ -113,6 +115,7 @@ type BackendConn struct {
 	Frames      int
 	authPending bool
 	stalled     [][]byte
+	Hung        bool // answers nothing any more (OutHang)
 	Out         func([]byte) // if set, replies are written here instead of to Link
 }
 
@@ -238,6 +241,10 @@ func (c *BackendConn) Reset(why string) {
 func (c *BackendConn) handle(raw []byte) {
 	w := c.Node.w
 	n := c.Node
+	if c.Hung {
+		w.Stat("backend.frame_ignored_by_hung_connection")
+		return
+	}
 	if n.Stalled {
 		// a stalled node reads nothing: the frame waits until the stall ends (or the connection dies)
 		c.stalled = append(c.stalled, raw)
@@ -370,6 +377,11 @@ func (c *BackendConn) handleQuery(raw []byte, frm *frame.Frame, msg *message.Que
 	q := strings.TrimSpace(msg.Query)
 	uq := strings.ToUpper(q)
 	switch {
+	case n.FailControlQueries && (uq == "SELECT * FROM SYSTEM.LOCAL" || uq == "SELECT * FROM SYSTEM.PEERS"):
+		// a node that completes the handshake but cannot serve its system tables
+		w.Stat("fault.control-query-fails")
+		c.replyNow(stream, &message.Overloaded{ErrorMessage: "overloaded"})
+		return
 	case uq == "SELECT * FROM SYSTEM.LOCAL":
 		c.Control = true
 		w.Stat("backend.system_local")
@@ -445,7 +457,8 @@ func (c *BackendConn) handleExecute(raw []byte, frm *frame.Frame, msg *message.E
 	n := c.Node
 	tok := tokenOf(msg)
 	id := hex.EncodeToString(msg.QueryId)
-	if _, ok := n.Prepared[id]; !ok {
+	_, scripted := w.Script[tok]
+	if _, ok := n.Prepared[id]; !ok && !(scripted && w.ScriptBeatsUnprepared) {
 		att := w.recordAttempt(c, raw, frm, tok)
 		att.Outcome = "unprepared(auto)"
 		w.Stat("backend.unprepared")
@@ -459,10 +472,11 @@ func (c *BackendConn) handleBatch(raw []byte, frm *frame.Frame, msg *message.Bat
 	w := c.Node.w
 	n := c.Node
 	tok := tokenOf(msg)
+	_, scripted := w.Script[tok]
 	for _, ch := range msg.Children {
 		if len(ch.Id) > 0 {
 			id := hex.EncodeToString(ch.Id)
-			if _, ok := n.Prepared[id]; !ok {
+			if _, ok := n.Prepared[id]; !ok && !(scripted && w.ScriptBeatsUnprepared) {
 				att := w.recordAttempt(c, raw, frm, tok)
 				att.Outcome = "unprepared(auto)"
 				w.Stat("backend.unprepared")
@@ -506,6 +520,10 @@ func (c *BackendConn) applyOutcome(out Outcome, stream int16, att *Attempt, tok 
 		w.Stat("backend.drop_now")
 		att.Dropped = true
 		c.Reset("scripted drop for " + tok)
+	case OutHang:
+		w.Stat("fault.connection-hangs")
+		w.Logf("backend %s: HANGS from now on (request %s)", c, tok)
+		c.Hung = true
 	case OutHostile:
 		if c.Node.NeverHostile {
 			att.Outcome = "ok"
